@@ -30,6 +30,9 @@ def legal_names(rng, enc, n_random):
             "with+plus", "semi;colon", "eq=ual", "br[ack]et", "comma,name", "tilde~1.txt", "LONGFI~1.TXT", "ABCDEFGH.IJK", "ABCDEFGHI.TXT", "A.TXTX",
             "Ünïcödé.dat", "ÅÄÖ.TXT", "naïve café.txt", "日本語.txt", "αβγδ.doc", "Ж" * 14 + ".ю", "😀.bin", "abcdefghijkl😀.txt", "abcdefghijk😀x.txt",
             "mixé😀é.x", "Maßstäbe.txt", "Straßenverzeichnis", "messwerte.maß", "ﬁnal.ﬂ", "İstanbul.txt", "ǆ.txt", "a" * 12 + "😀" * 6, "😀" * 127]
+    # characters that count as lower-case letters but have NO upper-case form (ordinal indicators, superscript n): nothing to fold, they stay
+    # what they are in the alias as in the name (C15-m10: "has a lower-case character" decided by str.islower)
+    out += ["1º.txt", "2ª via.pdf", "Nº 5.DOC", "ANEXO Nº", "xⁿ.txt", "Nº"]
     # names without a usable stem in the first 8 characters (D37): spaces (and dots) only before the last dot, 8 and more leading spaces
     out += [" .a", " .b", "  .txt", " .   c", ". .d", " . .e", " ..f", "         x", "         y.txt", "        .z", " lead", "  .lead two.x"]
     # names that differ only in case, none of them all upper-case: every one is a name of its own (long names compare exactly),
